@@ -10,6 +10,13 @@ COMMON_NOTE = ('Trusted base: z3 4.x/5.1 (python3-vt), the symx forking engine, 
                'reals), sizes beyond the stated bounds, GPU, complex dtypes. ')
 
 CHECKS = {
+ 'C14': dict(
+    text='Node and edge ids (explicit ids from a pool built around string ordering, or implicit ids produced by a stub of id() that returns solver-chosen distinct ints), attachments and external lists are solver variables; every choice is explored and the round trip '
+         'hrg_to_json / json.dumps / json_to_hrg must reproduce the grammar up to renaming of implicit ids, verbatim on a second round trip when all ids are explicit; out-of-range (incl. negative) node numbers must raise ValueError. For patterned weight specifications the solver '
+         'decides, per cell and for all physical entries, that json_to_weights denotes the tensor the specification describes (independent evaluator). Whole-FGG round trips with concrete sentinel weights are an enumeration sub-check, labelled as such.',
+    note='Bounds: one rule with 2 (quick) / 3 nodes and 2 edges; id pool {a,b,"10","9",A,""} + implicit ids from {9,10,100} (thorough 5 values); node numbers -3..3; 16 weight specifications (rank<=2, expand, products, sums, shared axes, defaults); '
+         'FGG round trip on the feature set + 40 grammars with concrete weights incl. inf. CrossHair contracts over symbolic strings were not built; ids come from the pool.',
+    technique='bounded symbolic execution with an id() stub + SMT denotation equality (z3)', design='5/C14'),
  'C20': dict(
     text='Domain value lists, probe values, factor/weight shapes and label/factor pairings are chosen by solver variables; the real FiniteDomain/RangeDomain/FiniteFactor/add_factor/add_domain/shape code is executed for every choice and compared with the definition '
          '(mutually inverse numberings, contains, equality by content; weights accepted iff shapes agree; apply returns exactly the symbolic cell at the numberized position; binding succeeds iff terminal, arity and domains match and the label is unbound; rejected calls change nothing).',
